@@ -170,6 +170,25 @@ def seq_task(task):
             selected = [os.path.basename(a) for a in o["analysed"]] or selected
             # every file of the directory must at least have been selected up to the first fatal one
         probs = judge(o, selected, cls_of)
+        # the same run in the JSON format: the per-file status must follow the same model, the exit status too
+        if not probs and o["exc"] is None and mode in ("args", "dir", "cwd") and (len(seq) <= 3 or "json" in task[2:]):
+            from . import c16
+            oj = impl.run_cli_observed(["--no-colors", "-f", "json"] + argv, cwd=root)
+            if oj["exc"] is not None:
+                probs.append(("json:traceback:" + oj["exc"][0], str(oj["exc"])))
+            elif oj["code"] != o["code"]:
+                probs.append((f"json:exit={oj['code']}", f"exit status {oj['code']} under -f json, {o['code']} in the default format"))
+            else:
+                want = model(o["analysed"], cls_of)
+                fatal_seen = any(isolated_verdict(cls_of[os.path.basename(a)], os.path.basename(a)) == "fatal" for a in o["analysed"])
+                try:
+                    got = [(nm, stt) for nm, stt, _ in c16.parse(oj["stdout"], True)] if oj["stdout"].strip() else []
+                except Exception as e:  # noqa: BLE001
+                    got = None
+                    if not fatal_seen:
+                        probs.append(("json:unparsable", f"{type(e).__name__}: {oj['stdout'][-120:]!r}"))
+                if got is not None and not fatal_seen and got != want:
+                    probs.append(("json:verdicts", f"statuses under -f json {got}, expected {want}"))
         sub = None
         if task[2:] and task[2] == "sub" or probs:
             so = impl.run_cli_subprocess(["--no-colors"] + argv, cwd=root)
@@ -190,6 +209,8 @@ def run(tier, seed):
     for n in range(0, maxlen + 1):
         for seq in itertools.product(CLASSES, repeat=n):
             t = ("args", seq) + (("sub",) if n <= 2 else ())
+            if n > 3 and (tier == "thorough" or sum(CLASSES.index(c) * (i + 1) for i, c in enumerate(seq)) % 5 == seed % 5):
+                t = t + ("json",)          # quick: a rotating fifth of the length-4 sequences also under -f json
             if n > 0:
                 tasks.append(t)
         for ms in itertools.combinations_with_replacement(CLASSES, n):
